@@ -1,6 +1,7 @@
 package mon
 
 import (
+	"bytes"
 	"fmt"
 	"math/rand"
 
@@ -36,6 +37,7 @@ type fGenOpts struct {
 	Undo                    bool
 	PartialOps              bool // verify/ingest/prune ops
 	Redo                    bool // an undo may be followed by re-applying the SAME block (same record) before going on
+	Reload                  bool // every instance is now and then replaced by what its own serialization restores
 	ForceEmptyRootOverwrite bool
 }
 
@@ -99,6 +101,9 @@ func genForestScenario(rng *rand.Rand, tag uint64, cfgs []InstCfg, o fGenOpts) f
 						s.Ops = append(s.Ops, fOp{Kind: "badmodify", Slots: sl, K: rng.Intn(3)})
 					}
 				}
+			}
+			if o.Reload && rng.Intn(5) == 0 {
+				s.Ops = append(s.Ops, fOp{Kind: "reload"})
 			}
 			b := gen.NextBlock(rng, m, o.Profile, len(m.Leaves) == 0)
 			if o.ForceEmptyRootOverwrite && i == 0 && r > 0 && len(m.Leaves) > 0 {
@@ -223,6 +228,22 @@ func runForest(c *core.Ctx, s fScenario, setupFail failFn, obs fObserver) *World
 			lastUndone = nil
 			st.LastRec = rec
 			countTraits(c, traits(rec))
+		case "reload":
+			// a serialization round trip part-way: work continues on the restored instances
+			for _, in := range w.Insts {
+				var buf bytes.Buffer
+				if _, err := writeInst(in, &buf); err != nil {
+					fail(writeSite(in), "reload-write-error", "", fmt.Sprintf("%s: %v", in.Name, err))
+					continue
+				}
+				r, _, err := restoreInst(in, bytes.NewReader(buf.Bytes()))
+				if err != nil {
+					fail(restoreSite(in), "reload-restore-error", "", fmt.Sprintf("%s: %v", in.Name, err))
+					continue
+				}
+				in.P, in.MP, in.U = r.P, r.MP, r.U
+			}
+			c.Count("reloads_from_own_serialization", 1)
 		case "redo":
 			// the block that was undone last is applied again from the very same record
 			if lastUndone == nil {
